@@ -298,6 +298,7 @@ pub fn config_main(job: &Value) -> i32 {
             });
         }
         writeln!(out, "{}", json!({"e": "case", "id": id, "m": c["m"], "results": results})).unwrap();
+        out.flush().unwrap();
         let _ = std::fs::remove_dir_all(&root);
     }
     out.flush().unwrap();
@@ -492,6 +493,7 @@ pub fn res_main(job: &Value) -> i32 {
             rec["relevant"] = json!(rel);
         }
         writeln!(out, "{}", rec).unwrap();
+        out.flush().unwrap();
         let _ = std::fs::remove_dir_all(&root);
     }
     out.flush().unwrap();
@@ -519,6 +521,7 @@ pub fn watch_main(job: &Value) -> i32 {
             Ok(t) => t,
             Err(e) => {
                 writeln!(out, "{}", json!({"e": "watch", "id": id, "error": format!("{:#}", e)})).unwrap();
+                out.flush().unwrap();
                 continue;
             }
         };
@@ -533,6 +536,7 @@ pub fn watch_main(job: &Value) -> i32 {
             Err(e) => {
                 rec["error"] = json!(format!("{:#}", e));
                 writeln!(out, "{}", rec).unwrap();
+                out.flush().unwrap();
                 continue;
             }
         };
@@ -601,6 +605,7 @@ pub fn watch_main(job: &Value) -> i32 {
         drop(watcher);
         rec["results"] = json!(results);
         writeln!(out, "{}", rec).unwrap();
+        out.flush().unwrap();
         let _ = std::fs::remove_dir_all(&root);
     }
     out.flush().unwrap();
